@@ -193,7 +193,7 @@ func c06Commands(w *core.World, id string) []core.Result {
 		G(`+^\(\*sched\.NodeClaim\)\.RemoveInstanceTypeOptionsByPriceAndMinValues\(.*, disr\.sumCandidatePrices\(\$2\)\)#1 == nil$`),
 		G(`+^len\(` + opts + `\)>=1$`),
 		// not a spot→spot move
-		G(`-^phi\(false\|true\|phi↺\)$`, `-^`+hasSpot),
+		G(`-none:-^\$2\[.*\]\.capacityType == "spot"$`, `-^`+hasSpot),
 		// OD → {spot, OD} is pinned to spot
 		G(`-^`+hasSpot, `-^`+hasOD, `instr:^call \(scheduling\.Requirements\)\.Add\(.*\.NewNodeClaims\[0\]\.NodeClaimTemplate\.Requirements, &local<\[1\]\*scheduling\.Requirement>\[:\]\)$`),
 		// options were price-ordered before filtering
@@ -255,7 +255,7 @@ func c06SpotToSpot(w *core.World, id string) []core.Result {
 		G(`+^len\(` + opts + `\)>=1$`),
 		// single node: at least 15 cheaper options, and truncation
 		G(`+^len\(\$2\)>=2$`, `+^len\(`+opts+`\)>=15$`),
-		G(`+^len\(\$2\)>=2$`, `instr:^store `+opts+` = lo\.Slice\[\*cloudprovider\.InstanceType, cloudprovider\.InstanceTypes\]\(`+opts+`, 0, (15|lo\.Max\[int\]\(&local<\[2\]int>\[:\]\))\)$`),
+		G(`+^len\(\$2\)>=2$`, `instr:^store `+opts+` = lo\.Slice\[\*cloudprovider\.InstanceType, cloudprovider\.InstanceTypes\]\(`+opts+`, 0, (15|lo\.Max\[int\]\(&local<\[2\]int>\[:\]\)|phi\(15\|lo\.Max\[int\]\(.*\)\))\)$`),
 	}
 	construct := "DOM:" + s2s
 	var out []core.Result
